@@ -4,6 +4,7 @@
    1c dissolve idiom; 1d adjacent move (_fix_paragraphs); 1e copy-and-split (_fix_nesting). *)
 From Coq Require Import List NArith Bool Arith Lia.
 From MW Require Import C05.Heap C05.TreeOps.
+From MW Require C05.ProofsApi.
 Import ListNotations.
 
 (* ================================================================ 0. induction, forests *)
@@ -630,4 +631,151 @@ Lemma words_move_adjacent : forall h t n tgt s l,
   words_t h (t_insert tgt false s (t_replace n [] t)) = words_t h t.
 Proof.
   intros. apply words_t_ids_eq. eapply ids_move_adjacent; eassumption.
+Qed.
+
+(* ================================================================ 1e. copy-and-split (_fix_nesting)
+   treecleaner.py:850-900: below the "bad parent" B the path down to the problem node N is cut
+   out; three trees are made from (copies of) B:
+     top    = B with everything right of the path, and N itself, filtered out,
+     middle = the path only (N with its whole subtree); its single child is what is spliced in,
+     bottom = B with everything left of the path, and N itself, filtered out. *)
+Fixpoint split3 (x : N) (ts : list tree) : option (list tree * tree * list tree) :=
+  match ts with
+  | [] => None
+  | y :: r => if N.eqb (tid y) x then Some ([], y, r)
+              else match split3 x r with
+                   | Some (l, X, rr) => Some (y :: l, X, rr)
+                   | None => None
+                   end
+  end.
+
+Fixpoint split_top (path : list N) (t : tree) {struct path} : tree :=
+  let 'T i ts := t in
+  match path with
+  | [] => t
+  | x :: rest =>
+      match split3 x ts with
+      | None => t
+      | Some (lefts, X, rights) =>
+          match rest with
+          | [] => T i lefts
+          | _ => T i (lefts ++ [split_top rest X])
+          end
+      end
+  end.
+
+Fixpoint split_mid (path : list N) (t : tree) {struct path} : tree :=
+  let 'T i ts := t in
+  match path with
+  | [] => T i []
+  | x :: rest =>
+      match split3 x ts with
+      | None => T i []
+      | Some (lefts, X, rights) =>
+          match rest with
+          | [] => T i [X]
+          | _ => T i [split_mid rest X]
+          end
+      end
+  end.
+
+Fixpoint split_bot (path : list N) (t : tree) {struct path} : tree :=
+  let 'T i ts := t in
+  match path with
+  | [] => T i []
+  | x :: rest =>
+      match split3 x ts with
+      | None => T i []
+      | Some (lefts, X, rights) =>
+          match rest with
+          | [] => T i rights
+          | _ => T i (split_bot rest X :: rights)
+          end
+      end
+  end.
+
+(* every path element is found *)
+Fixpoint path_ok (path : list N) (t : tree) {struct path} : Prop :=
+  match path with
+  | [] => True
+  | x :: rest => match split3 x (tkids t) with
+                 | Some (_, X, _) => path_ok rest X
+                 | None => False
+                 end
+  end.
+
+(* the bad parent b and the path nodes strictly above the problem node carry no text of their own *)
+Definition own_text_empty (h : heap) (path : list N) (b : N) : Prop :=
+  textof h b = [] /\ forall x, In x (removelast path) -> textof h x = [].
+
+Lemma split3_spec : forall x ts l X r, split3 x ts = Some (l, X, r) ->
+  ts = l ++ X :: r /\ tid X = x.
+Proof.
+  intros x ts. induction ts as [|y ts IH]; intros l X r H; [discriminate|].
+  simpl in H. destruct (N.eqb (tid y) x) eqn:E.
+  - inversion H; subst. apply N.eqb_eq in E. auto.
+  - destruct (split3 x ts) as [[[l' X'] r']|]; [|discriminate].
+    inversion H; subst. destruct (IH _ _ _ eq_refl) as [-> A]. auto.
+Qed.
+
+Lemma words_t_hd : forall h t, words_t h t = textof h (tid t) ++ flat_map (words_t h) (tkids t).
+Proof. intros h [i ts]. reflexivity. Qed.
+
+Lemma tid_split_mid : forall path t, tid (split_mid path t) = tid t.
+Proof.
+  intros path [i ts]. destruct path as [|x rest]; [reflexivity|]. simpl.
+  destruct (split3 x ts) as [[[l X] r]|]; [|reflexivity]. destruct rest; reflexivity.
+Qed.
+
+Lemma words_split : forall h path t,
+  path_ok path t -> path <> [] -> own_text_empty h path (tid t) ->
+  words_t h (split_top path t) ++ flat_map (words_t h) (tkids (split_mid path t))
+    ++ words_t h (split_bot path t) = words_t h t.
+Proof.
+  intros h path. induction path as [|x rest IH]; intros [i ts] Hok Hne [Hb Hp]; [congruence|].
+  simpl in Hok, Hb. simpl split_top. simpl split_mid. simpl split_bot.
+  destruct (split3 x ts) as [[[l X] r]|] eqn:E; [|contradiction].
+  destruct (split3_spec _ _ _ _ _ E) as [-> HX].
+  destruct rest as [|y rest'].
+  - simpl. rewrite Hb, flat_map_app. simpl. rewrite app_nil_r. reflexivity.
+  - assert (Hx : textof h x = []) by (apply Hp; left; reflexivity).
+    assert (IHX : words_t h (split_top (y :: rest') X)
+                  ++ flat_map (words_t h) (tkids (split_mid (y :: rest') X))
+                  ++ words_t h (split_bot (y :: rest') X) = words_t h X).
+    { apply IH; [exact Hok | discriminate |]. split; [rewrite HX; exact Hx|].
+      intros z Hz. apply Hp. right. exact Hz. }
+    set (TOP := split_top (y :: rest') X) in *.
+    set (MID := split_mid (y :: rest') X) in *.
+    set (BOT := split_bot (y :: rest') X) in *.
+    assert (HM : words_t h MID = flat_map (words_t h) (tkids MID)).
+    { rewrite words_t_hd. unfold MID. rewrite tid_split_mid, HX, Hx. reflexivity. }
+    change (words_t h (T i (l ++ [TOP]))) with (textof h i ++ flat_map (words_t h) (l ++ [TOP])).
+    change (words_t h (T i (BOT :: r)))
+      with (textof h i ++ words_t h BOT ++ flat_map (words_t h) r).
+    change (words_t h (T i (l ++ X :: r)))
+      with (textof h i ++ flat_map (words_t h) (l ++ X :: r)).
+    change (tkids (T i [MID])) with [MID].
+    rewrite Hb, !flat_map_app. simpl. rewrite !app_nil_r, HM, <- IHX, <- !app_assoc.
+    reflexivity.
+Qed.
+
+(* ================================================================ heap-level corollary of 1c
+   node.parent.replace_child(node, node.children) on a proper tree, for a node without text of
+   its own: succeeds, keeps the tree proper, keeps the visible words. *)
+Theorem dissolve_keeps_words : forall h t p c cs,
+  repr h None t -> NoDup (ids t) -> In p (ids t) -> In c (kids h p) ->
+  t_find c t = Some (T c cs) -> textof h c = [] ->
+  exists h', replace_child h p c (kids h c) = Ok h' /\ WF h' (tid t) /\
+             words h' (tid t) = words h (tid t).
+Proof.
+  intros h t p c cs Hr Hnd Hp Hc Hf Ht.
+  destruct (ProofsApi.child_setup h t p c Hr Hnd Hp Hc)
+    as (s & idx & _ & _ & _ & _ & _ & _ & _ & _ & _ & Hne & _ & _).
+  destruct (ProofsApi.dissolve_repr h t p c cs Hr Hnd Hp Hc Hf) as (h' & R1 & R2 & R3).
+  exists h'. split; [exact R1|]. split.
+  - exists (t_replace c cs t). rewrite tid_replace. auto.
+  - unfold words. rewrite <- (tid_replace c cs t) at 1.
+    rewrite (ProofsApi.build_complete _ _ _ R2 R3), (ProofsApi.build_complete _ _ _ Hr Hnd).
+    rewrite (words_t_same_tc h h') by (eapply same_tc_replace_child; eassumption).
+    apply words_dissolve; auto.
 Qed.
